@@ -88,6 +88,19 @@ def gen(ctx):
                 good = ("file: Music/" + "a" * 400)[:off] + ch + "/track.flac"
                 cases.append(g.case_line("recv", rng.choice("ab"), 1, "eof", [good.encode() + b"\nOK\n"]))
                 expect.append(None)
+    # several binary parts in one frame, binary parts between fields, in list frames: unusual, never a reason to panic
+    for st in (b"size: 3\nbinary: 3\nabc\nbinary: 2\nde\nOK\n", b"binary: 0\n\nbinary: 0\n\nOK\n", b"binary: 1\na\nx: y\nbinary: 1\nb\nz: w\nOK\n",
+               b"binary: 2\nab\nlist_OK\nbinary: 1\nc\nbinary: 3\ndef\nlist_OK\nOK\n", b"a: 1\nbinary: 1\nq\nbinary: 1\nr\nbinary: 1\ns\nACK [5@0] {} x\n"):
+        add("recv", st + b"volume: 1\nOK\n", "eof")
+    # very long greetings (beyond one and two doublings of the receive buffer) with more or less data arriving in the same read
+    for gl in (100, 4090, 4096, 5000, 8185, 8192, 9000, 20000):
+        gr = b"OK MPD " + b"1" * gl + b"\n"
+        for body in (b"", b"a: b\nOK\n", (b"k: " + b"v" * 84 + b"\n") * 100 + b"OK\n", (b"k: " + b"v" * 84 + b"\n") * 60 + b"OK\nbinary: 5000\n" + bytes(range(250)) * 20 + b"\nOK\n"):
+            st = gr + body
+            for seg in (g.seg_whole(st), [st[:len(gr) // 2], st[len(gr) // 2:]], [st[i:i + 4096] for i in range(0, len(st), 4096)], g.seg_random(rng, st, maxlen=3000)):
+                for fl in ("b", "a"):
+                    cases.append(g.case_line("conn", fl, 1, "eof", [c_ for c_ in seg if c_]))
+                    expect.append(None)
     # sizes: a read that fills the buffer exactly, and large pipelined responses in bulk reads
     for st, _ in g.exact_fill_streams():
         add("recv", st, "eof")
